@@ -164,7 +164,10 @@ func (e *env) dkgStates() map[string]*dkg.DBState {
 	}
 }
 
-func setup(seed int64, rep *emit.Report) (*env, error) {
+var errSlowHost = errors.New("the running chain did not produce round 1 (started after its genesis)")
+
+// setup builds the environment; the running chain's genesis is offset seconds away.
+func setup(seed int64, rep *emit.Report, offset int64) (*env, error) {
 	ctx := context.Background()
 	e := &env{rng: rand.New(rand.NewSource(seed)), rep: rep, in: engrouting.NewInterner(), chains: map[string]*engrouting.Chain{},
 		me: map[string]*pdkg.Participant{}, wedged: map[int]bool{}}
@@ -186,7 +189,7 @@ func setup(seed int64, rep *emit.Report) (*env, error) {
 	var dk []string
 	pairs := map[string]*key.Pair{}
 	for _, id := range ids {
-		c, err := engrouting.MkChain(id, e.sch, time.Now().Unix()+2)
+		c, err := engrouting.MkChain(id, e.sch, time.Now().Unix()+offset)
 		if err != nil {
 			return nil, err
 		}
@@ -278,13 +281,18 @@ func setup(seed int64, rep *emit.Report) (*env, error) {
 	}
 	e.proc.Executions["exec"] = eb
 	// wait for round 1 of the running chain
-	for i := 0; i < 200; i++ {
+	for i := int64(0); i < (offset+8)*20; i++ {
 		if r, err := e.dd.PublicRand(ctx, &drand.PublicRandRequest{Metadata: &drand.Metadata{BeaconID: "default"}}); err == nil && r.GetRound() >= 1 {
-			break
+			return e, nil
 		}
 		time.Sleep(50 * time.Millisecond)
 	}
-	return e, nil
+	// on a loaded host the beacon may have started after its genesis: the caller retries with a later one
+	sctx, cancel := context.WithTimeout(ctx, 5*time.Second)
+	e.dd.Stop(sctx)
+	cancel()
+	os.RemoveAll(e.dir)
+	return nil, errSlowHost
 }
 
 func groupHash(g *key.Group) []byte { return chain2.NewChainInfo(g).Hash() }
@@ -831,7 +839,7 @@ func (e *env) runRouted() {
 		{"PublicRand", []string{"default"}, func(m *drand.Metadata) error { _, err := e.dd.PublicRand(ctx, &drand.PublicRandRequest{Metadata: m}); return err }},
 		{"Status", all, func(m *drand.Metadata) error { _, err := e.dd.Status(ctx, &drand.StatusRequest{Metadata: m}); return err }},
 		{"SyncChain", []string{"default"}, func(m *drand.Metadata) error {
-			sctx, cancel := context.WithTimeout(ctx, time.Second)
+			sctx, cancel := context.WithTimeout(ctx, 15*time.Second) // cancelled by the first Send; generous for a loaded host
 			defer cancel()
 			st := &syncStream{ctx: sctx, cancel: cancel}
 			err := e.dd.SyncChain(&drand.SyncRequest{FromRound: 1, Metadata: m}, st)
@@ -1009,8 +1017,17 @@ func Run(outDir string, seed int64, tier string) error {
 	if devnull, err := os.OpenFile(os.DevNull, os.O_WRONLY, 0); err == nil {
 		os.Stdout = devnull
 	}
+	if os.Getenv(childEnv) == "pending" {
+		runPendingChild(tier) // exits
+	}
 	rep := emit.NewReport("robust", seed, tier)
-	e, err := setup(seed, rep)
+	var e *env
+	var err error
+	for _, offset := range []int64{2, 8, 20} {
+		if e, err = setup(seed, rep, offset); !errors.Is(err, errSlowHost) {
+			break
+		}
+	}
 	if err != nil {
 		return err
 	}
@@ -1027,7 +1044,8 @@ func Run(outDir string, seed int64, tier string) error {
 		e.dd.Stop(sctx)
 	}
 	cancel()
-	rep.Rule = "every oneof variant of GossipPacket / DKGPacket bundles with nil, empty, short and oversize fields x DKG record states {fresh, proposed, executing, left, left / proposed / joined without leader, complete, unknown id} on DrandDaemon.Packet and dkg.Process.Packet (seeded order, probes after every call), BroadcastDKG shapes, partial beacons (rounds x lengths x indices), routed endpoints x metadata kinds (nil, empty, ids, hashes, oversize), HTTP hash / round parameters, loopback gRPC witnesses; distinct = distinct (endpoint, state, shape); non-trivial = the request carries at least one field"
+	runPendingParent(rep, seed, tier)
+	rep.Rule = "every oneof variant of GossipPacket / DKGPacket bundles with nil, empty, short and oversize fields x DKG record states {fresh, proposed, executing, left, left / proposed / joined without leader, complete, unknown id} on DrandDaemon.Packet and dkg.Process.Packet (seeded order, probes after every call), BroadcastDKG shapes, partial beacons (rounds x lengths x indices), routed endpoints x metadata kinds (nil, empty, ids, hashes, oversize), HTTP hash / round parameters, loopback gRPC witnesses, and (in a child process, one scheduler thread) a pending PublicRand for the next round while two beacons are stored back to back; distinct = distinct (endpoint, state, shape); non-trivial = the request carries at least one field"
 	req := append([]string{"From DV Require Import Model.Routing Model.Robust Corr.RobustCorr.", "Open Scope Z_scope."}, e.in.Defs()...)
 	if err := rep.Shard(outDir, "cases_robust", req, "kcase", "mismatches", e.cases, e.descr, 250); err != nil {
 		return err
